@@ -19,7 +19,7 @@ From Coq Require Import List Arith Bool ZArith.
 From VBase Require Import FieldOps MachInt.
 From VGen Require Import FriInt.
 From VModel Require Import Merkle Fri FriMerkle.
-From VProofs Require Import MerkleSingle MerkleBind FriAccept FriBinding FriIdx FriCount FriQuery FriMerkleInst FriGen FriExamples.
+From VProofs Require Import MerkleSingle MerkleBind FriAccept FriBinding FriIdx FriCount FriQuery FriQueryLoop FriMerkleInst FriGen FriExamples.
 Import ListNotations.
 Local Open Scope nat_scope.
 
@@ -229,6 +229,39 @@ Theorem C05_layer_step_opened_iff : forall (F : Type) (O : FOps F), FLaws O ->
              (map (foldval O gen_offset roots N (vs_gen D MN s) E rl alpha) folded) (chan_tail D MN (vs_chan D MN s))).
 Proof. intros F O L gen_offset dbg D hash_elements MN mt_verify_batch. exact (layer_step_opened_iff O L gen_offset dbg D hash_elements MN mt_verify_batch). Qed.
 Print Assumptions C05_layer_step_opened_iff.
+
+(* query_phase_iff_pass_checks — the single iff: k >= 1 committed layer functions l0 :: rest ([clayer]: evaluation vector,
+   challenge, commitment, Merkle nodes, depth) on the LDE domain D = n * N^k; the evaluations handed to the verifier are those of
+   the first committed function at the query positions ps; the channel opens the committed functions at the folded positions
+   ([opened]) and every opening authenticates ([auth_all]); no degree truncation (running bound e * N^k).  Then the model's
+   query phase — layers_loop over all layers followed by the remainder comparison — succeeds IFF pass_checks cs ps, with cs =
+   [checks_from]: the comparison of layer j against the fold of layer j-1 at level j (good_fold), the remainder comparison at
+   level k (good_rem).  Together with C05_fri_query_counting_all_checks_partial: exactly (D - U)^q of the D^q position vectors
+   make the model's query phase succeed.  Duplicates in ps are handled as in the code (fold_positions de-duplicates). *)
+Theorem C05_query_phase_iff_pass_checks : forall (F : Type) (O : FOps F), FLaws O ->
+  forall (gen_offset : F) (dbg : bool) (D : Type) (hash_elements : list F -> D) (MN : Type)
+         (mt_verify_batch : D -> list nat -> list D -> MN -> nat -> auth_res) (roots : list F) (N : nat), N <> 0 ->
+  forall (R : list F) (l0 : clayer D MN) rest v pre_c tail_c pre_a tail_a g n e ps cm ptail qtail rem,
+  let Ls := l0 :: rest in
+  let k := length Ls in
+  let Dm := n * N ^ k in
+  let cs := checks_from O gen_offset D MN roots N R rest 1 g (cl_E D MN l0) (Dm / N) (cl_alpha D MN l0) (fexp O g N) (Dm / N) in
+  n <> 0 -> (forall p, In p ps -> p < Dm) ->
+  v_commitments D v = pre_c ++ map (cl_commitment D MN) Ls ++ tail_c ->
+  v_alphas D v = pre_a ++ map (cl_alpha D MN) Ls ++ tail_a ->
+  length pre_a = length pre_c -> fo_folding (v_options D v) = N -> v_partitions D v = 1 ->
+  auth_all O D hash_elements MN mt_verify_batch N Ls ps Dm ->
+  ((exists s', layers_loop O gen_offset dbg D MN mt_verify_batch k N v roots (length pre_c)
+                 (mkVS D MN g Dm (e * N ^ k) ps (FriQueryLoop.evals_at O (cl_E D MN l0) ps)
+                       (mkVCh D MN cm (fst (opened O D hash_elements MN N Ls ps Dm) ++ ptail)
+                                      (snd (opened O D hash_elements MN N Ls ps Dm) ++ qtail) rem 1)) = Ok s' /\
+               remainder_check O gen_offset R (vs_gen D MN s') (vs_positions D MN s') (vs_evals D MN s') = true)
+   <-> pass_checks cs n N k ps = true).
+Proof.
+  intros F O L gen_offset dbg D hash_elements MN mt_verify_batch roots N HN R.
+  exact (query_phase_iff_pass_checks O L gen_offset dbg D hash_elements MN mt_verify_batch roots N HN R).
+Qed.
+Print Assumptions C05_query_phase_iff_pass_checks.
 
 (* ---------------------------------------------------------------- round 4: the model computes the GENERATED integer terms
    (coq/Gen/FriInt.v, regenerated from fri/src by rs2v on every run) *)
